@@ -243,6 +243,37 @@ def chk_reuse_history(toast: bool, history: int, levels: int) -> bool:
         shutil.rmtree(d, ignore_errors=True)
 
 
+def chk_reuse_long_history(toast: bool, lv1: int, lv2: int) -> bool:
+    """
+    A four-call history on one output directory in one process: fresh (pyramid of lv1 levels), reuse, override=True with
+    a CHANGED input (lv2 levels, other astrometry), reuse again.  After every call the builder handed back must describe
+    the index_rel.wtml now in the directory.
+
+    pre: 0 <= lv1 <= 9 and 0 <= lv2 <= 9
+    post: _
+    """
+    d = "/tmp/verif-c17-long-%d-%d%d%d" % (os.getpid(), int(toast), lv1, lv2)
+    shutil.rmtree(d, ignore_errors=True)
+    os.makedirs(d)
+    out = os.path.join(d, "tiles")
+    method = TilingMethod.TOAST if toast else TilingMethod.TAN
+    first = dict(levels=lv1, cx=12.5, cy=-33.25, bdpt=0.75)
+    second = dict(levels=lv2, cx=-7.0, cy=41.5, bdpt=1.5)
+    ok = True
+    try:
+        for produced, override, want in ((first, False, first), (first, False, first), (second, True, second), (second, False, second)):
+            t = _make_tiler(method, out, produced)
+            t.tile(parallel=1, override=override)
+            w = _wtml_imageset(out)
+            b = t.builder.imgset
+            ok = ok and (w is not None and b.tile_levels == w.tile_levels == want["levels"] and b.url == w.url and b.file_type == w.file_type
+                         and b.center_x == w.center_x == want["cx"] and b.center_y == w.center_y == want["cy"]
+                         and b.base_degrees_per_tile == w.base_degrees_per_tile == want["bdpt"])
+        return ok
+    finally:
+        shutil.rmtree(d, ignore_errors=True)
+
+
 def explain(func, call):
     if func == "chk_reuse_history":
         try:
